@@ -27,6 +27,8 @@ use crate::{vensure, vfail};
 pub enum Op {
     /// poll_read with a buffer of this size
     Read(u16),
+    /// poll_read with a buffer at or beyond the 16-bit limits: 65536, 131072, 70000, 65537, 196608
+    ReadBig(u8),
     /// poll_fill_buf, then consume min(k, available)
     Fill(u16),
     /// select the role's next input stream (ignored when there is none)
@@ -130,9 +132,15 @@ fn test(c: &Case) -> TestResult {
     for (oi, op) in c.ops.iter().enumerate() {
         let active = req.active_stream().map(u8::from);
         match op {
-            Op::Read(cap) => {
+            Op::Read(_) | Op::ReadBig(_) => {
+                let cap: usize = match op {
+                    Op::Read(c) => *c as usize,
+                    Op::ReadBig(k) => [65536usize, 131072, 70000, 65537, 196608][*k as usize % 5],
+                    _ => unreachable!(),
+                };
+                let cap = &cap;
                 used_read = true;
-                let mut buf = vec![0xEEu8; *cap as usize];
+                let mut buf = vec![0xEEu8; *cap];
                 let r = d.run("poll_read", None, |cx| Pin::new(&mut req).poll_read(cx, &mut buf))?.unwrap();
                 match r {
                     Ok(n) => {
@@ -269,6 +277,7 @@ fn check_visible(delivered: &BTreeMap<u8, Vec<u8>>, active: Option<u8>, avail: &
 fn op() -> BoxedStrategy<Op> {
     prop_oneof![
         5 => prop_oneof![1 => Just(0u16), 3 => 1u16..=9, 3 => 1u16..=700, 1 => Just(u16::MAX)].prop_map(Op::Read),
+        1 => any::<u8>().prop_map(Op::ReadBig),
         5 => prop_oneof![1 => Just(0u16), 3 => 1u16..=9, 3 => 1u16..=700, 1 => Just(u16::MAX)].prop_map(Op::Fill),
         1 => Just(Op::Next),
         1 => prop::option::weighted(0.5, 0u8..4).prop_map(Op::Writeable),
